@@ -137,6 +137,13 @@ def f_lt2(x, y):
 
 
 @predicate
+def f_vge(v, k):
+    """takes VALUES (attribute / index / call expressions of a variable), falsy ones included, not the objects"""
+    PRED_CALLS["f_vge"] += 1
+    return v >= k
+
+
+@predicate
 def f_inner(x, k):
     """A predicate that builds and evaluates a query of its own while the enclosing query is being evaluated."""
     PRED_CALLS["f_inner"] += 1
@@ -176,7 +183,7 @@ class CSame(Predicate):
         return self.x.a == self.y.a
 
 
-FPREDS = {"f_gt": f_gt, "f_lt2": f_lt2, "f_ok": f_ok, "f_inner": f_inner}
+FPREDS = {"f_gt": f_gt, "f_lt2": f_lt2, "f_ok": f_ok, "f_inner": f_inner, "f_vge": f_vge}
 CPREDS = {"CGt": CGt, "CSame": CSame}
 # reference (plain Python) meaning of the predicates
 PRED_REF = {
@@ -184,6 +191,7 @@ PRED_REF = {
     "f_lt2": lambda x, y: x.a < y.a,
     "f_ok": lambda x: True,
     "f_inner": lambda x, k: x.a > k,
+    "f_vge": lambda v, k: v >= k,
     "CGt": lambda x, k: x.a > k,
     "CSame": lambda x, y: x.a == y.a,
 }
